@@ -51,6 +51,15 @@ CORPUS = [
     # entity names differing only by case
     {'entities': [{'name': 'Item', 'table': None, 'base': None, 'attrs': [], 'ckeys': [], 'cindexes': [], 'cpk': None},
                   {'name': 'ITEM', 'table': None, 'base': None, 'attrs': [], 'ckeys': [], 'cindexes': [], 'cpk': None}], 'rels': []},
+    # a required reference to an entity with a composite key, declared in a subclass of a single-table hierarchy
+    {'entities': [{'name': 'Shelf', 'table': None, 'base': None, 'attrs': [{'name': 'room', 'kind': 'Required', 'type': 'int', 'opts': {}},
+                                                                             {'name': 'pos', 'kind': 'Required', 'type': 'int', 'opts': {}},
+                                                                             {'name': 'boxes', 'kind': 'Set', 'type': 'Box', 'opts': {'reverse': 'shelf'}}],
+                   'ckeys': [], 'cindexes': [], 'cpk': ['room', 'pos']},
+                  {'name': 'Item', 'table': None, 'base': None, 'attrs': [{'name': 'label', 'kind': 'Required', 'type': 'str', 'opts': {}}], 'ckeys': [], 'cindexes': [], 'cpk': None},
+                  {'name': 'Box', 'table': None, 'base': 'Item', 'attrs': [{'name': 'shelf', 'kind': 'Required', 'type': 'Shelf', 'opts': {'reverse': 'boxes'}},
+                                                                            {'name': 'weight', 'kind': 'Required', 'type': 'int', 'opts': {}}], 'ckeys': [], 'cindexes': [], 'cpk': None}],
+     'rels': []},
     # cyclic foreign keys and a self reference
     {'entities': [{'name': 'A', 'table': None, 'base': None, 'attrs': [{'name': 'b', 'kind': 'Optional', 'type': 'B', 'opts': {'reverse': 'as_'}},
                                                                          {'name': 'boss', 'kind': 'Optional', 'type': 'A', 'opts': {'reverse': 'staff'}},
@@ -137,7 +146,7 @@ def name_requests(ctx):
         n = rng.choice([rng.randint(lo, 8), rng.randint(lo, hi), rng.choice([29, 30, 31, 62, 63, 64, 65])])
         return ''.join(rng.choice(alpha) for _ in range(n))
     reqs = []
-    for _ in range(ctx.scale(25, 400)):
+    for _ in range(ctx.scale(20, 400)):
         for p in gen.PROVIDERS:
             cols = [rs(1, 12) for _ in range(rng.randint(1, 3))]
             reqs.append({'provider': p, 'fn': 'normalize_name', 'args': [rs()]})
@@ -196,14 +205,20 @@ def schema_exprs(case, o):
     ops = []
     for n in o['names_in_order'] if 'names_in_order' in o else []:
         pass
-    # columns of single-entity tables
+    # columns of every entity table (a hierarchy shares one table: entities in definition order, each adding the attributes it declares)
+    by_table = {}
     for en, er in o.get('attrs', {}).items():
-        t = tables.get(er['table'])
-        if t is None or t['m2m'] or t['entities'] != [en]: continue
+        by_table.setdefault(er['table'], []).append((en, er))
+    for tn, ents in by_table.items():
+        t = tables.get(tn)
+        if t is None or t['m2m'] or sorted(e for e, _ in ents) != t['entities']: continue
+        roots = {er['root'] for _, er in ents}
+        if len(roots) != 1: continue
         attrs = []
-        for an, ar in er['attrs'].items():
-            if ar.get('collection') or not ar['columns']: continue
-            attrs.append('(mkattr %s %s)' % (cl([cs(c) for c in ar['columns']]), cb(ar['nullable'])))
+        for en, er in ents:
+            for an, ar in er['attrs'].items():
+                if ar.get('collection') or not ar['columns'] or ar['declared_in'] != en: continue
+                attrs.append('(mkattr %s %s)' % (cl([cs(c) for c in ar['columns']]), cb(ar['nullable'])))
         cols = cl(['(%s, %s)' % (cs(c[0]), cb(c[2])) for c in t['columns']])
         out.append(('columns', 'opt_cols_eqb (build_columns %s) %s' % (cl(attrs), cols)))
     # the registry accepts exactly these names, pairwise distinct
@@ -214,7 +229,7 @@ def schema_exprs(case, o):
 
 def correspondence(ctx):
     reqs = name_requests(ctx)
-    cases, res, names = run(ctx, ctx.scale(100, 1500), reqs)
+    cases, res, names = run(ctx, ctx.scale(80, 1500), reqs)
     exprs, meta, disagreements = [], [], []
     dist = {'naming_function_calls': 0, 'order': 0, 'index_name': 0, 'fk_name': 0, 'columns': 0, 'registry': 0, 'accepted_schemas': 0}
     nontrivial = set()
@@ -242,8 +257,8 @@ def correspondence(ctx):
 
 def search(ctx, deep):
     reqs = name_requests(ctx)
-    n = ctx.scale(100, 1500) if not deep else 1500
-    cases, res, _ = run(ctx, n, reqs if n == ctx.scale(100, 1500) else None)
+    n = ctx.scale(80, 1500) if not deep else 1500
+    cases, res, _ = run(ctx, n, reqs if n == ctx.scale(80, 1500) else None)
     failures, seen, nontriv = {}, {}, set()
     dist = {'outcomes': {}}
     for c, o in zip(cases, res):
